@@ -2,8 +2,8 @@ package main
 
 // kind "c06_callseq": the calls made by a function body, in source order, as a Coq list of
 // strings (the printed callee expression, e.g. "s.storage.Push", "s.graph.Index",
-// "descriptor.IsManifest").  Callees listed in args.ignore (and calls inside function
-// literals when args.skip_closures is true) are left out.  The hand-written models mirror
+// "descriptor.IsManifest").  Callees listed in args.ignore are left out; calls inside
+// function literals are left out unless args.closures is true.  The hand-written models mirror
 // exactly this order of effects; Proofs state the expected sequence, so a re-ordering,
 // removal or insertion of a step in the Go source breaks the proof layer instead of only the
 // differential run.
@@ -32,9 +32,10 @@ func init() {
 				}
 			}
 		}
+		closures, _ := it.Args["closures"].(bool)
 		var calls []string
 		ast.Inspect(fd.Body, func(n ast.Node) bool {
-			if _, ok := n.(*ast.FuncLit); ok {
+			if _, ok := n.(*ast.FuncLit); ok && !closures {
 				return false
 			}
 			c, ok := n.(*ast.CallExpr)
